@@ -330,15 +330,70 @@ def tainted(x, acc=[]):
     COUNT += 1
     CACHE[x] = 1
     acc.append(x)
+    h = Holder()
+    h.seen.append(x)
     return acc
+class Holder(object):
+    seen = []
+    def __init__(self):
+        self.own = []
 '''
 
 
 MEMO_DECORATORS = {"lru_cache", "cache", "cached_property", "memoize", "memoized"}
 
 
+_MUT_CALLS = ("list", "dict", "set", "OrderedDict", "defaultdict", "deque", "bytearray", "Counter")
+_MUT_METHODS = ("append", "extend", "insert", "update", "add", "pop", "popitem", "clear", "remove", "discard", "setdefault", "sort",
+                "reverse", "appendleft")
+
+
+def _class_mutables(p):
+    """{attribute name: class} - containers created once in a class body and not shadowed by an instance attribute in any method
+    of the class: every instance sees (and mutates) the same object"""
+    def build():
+        out = {}
+        for cq, ci in p.classes.items():
+            inst = set()
+            for m in ci.methods.values():
+                if isinstance(m.node, ast.Lambda) or not m.node.args.args:
+                    continue
+                me = m.node.args.args[0].arg
+                for sub in ast.walk(m.node):
+                    if isinstance(sub, ast.Attribute) and isinstance(sub.ctx, ast.Store) and isinstance(sub.value, ast.Name) and sub.value.id == me:
+                        inst.add(sub.attr)
+            for st in ci.node.body:
+                if isinstance(st, (ast.Assign, ast.AnnAssign)) and st.value is not None:
+                    v = st.value
+                    mutable = isinstance(v, (ast.List, ast.Dict, ast.Set, ast.ListComp, ast.DictComp, ast.SetComp)) or (
+                        isinstance(v, ast.Call) and (v.func.id if isinstance(v.func, ast.Name) else getattr(v.func, "attr", "")) in _MUT_CALLS)
+                    if not mutable:
+                        continue
+                    for t in (st.targets if isinstance(st, ast.Assign) else [st.target]):
+                        if isinstance(t, ast.Name) and t.id not in inst and not (t.id.startswith("__") and t.id.endswith("__")):
+                            out[t.id] = cq
+        return out
+    return p.cached("class_mutables", build)
+
+
 def _global_writes(p, ea, fi):
     out = []
+    cm = _class_mutables(p)
+    if cm and not isinstance(fi.node, ast.Lambda):
+        for sub in walk_shallow(fi.node):
+            tgt = None
+            if isinstance(sub, ast.Call) and isinstance(sub.func, ast.Attribute) and sub.func.attr in _MUT_METHODS \
+                    and isinstance(sub.func.value, ast.Attribute) and sub.func.value.attr in cm:
+                tgt = sub.func.value
+            elif isinstance(sub, (ast.Assign, ast.AugAssign, ast.Delete)):
+                for t in (sub.targets if isinstance(sub, (ast.Assign, ast.Delete)) else [sub.target]):
+                    if isinstance(t, ast.Subscript) and isinstance(t.value, ast.Attribute) and t.value.attr in cm:
+                        tgt = t.value
+                    if isinstance(sub, ast.AugAssign) and isinstance(t, ast.Attribute) and t.attr in cm:
+                        tgt = t
+            if tgt is not None:
+                out.append((sub, "mutates `%s`, a container created once in the body of class %s and shared by all its instances" % (
+                    unparse(tgt), cm[tgt.attr])))
     for d in getattr(fi.node, "decorator_list", []):
         dn = d.func if isinstance(d, ast.Call) else d
         name = dn.attr if isinstance(dn, ast.Attribute) else getattr(dn, "id", "")
@@ -402,7 +457,7 @@ def rule_pu_global(ctx):
     finally:
         shutil.rmtree(tmp, ignore_errors=True)
     kinds = " | ".join(w[1] for w in ws)
-    if not ("COUNT" in kinds and "CACHE" in kinds and "default argument" in kinds):
+    if not ("COUNT" in kinds and "CACHE" in kinds and "default argument" in kinds and "h.seen" in kinds):
         raise AnalysisError("PU.GLOBAL positive control not flagged (got: %s): the detector is blind" % kinds)
     ctx.ok("PU.GLOBAL", "positive-control", None, 0, "embedded impure function flagged as expected (%s)" % kinds, nontrivial=False)
     ctx.floor("PU.GLOBAL", 40)
